@@ -1,6 +1,7 @@
 import QR.Model.Compile
 import QR.Spec.Stream
 import QR.Proofs.Total
+import QR.Proofs.Pinned
 /-
 C03 - compile succeeds or raises DataOverflowError, decided by capacity.
 `Model.compile cfg segs` mirrors `QRCode(version, error_correction, mask_pattern)` + `add_data` + `make(fit)`:
@@ -88,5 +89,9 @@ example : (⟨40, Spec.Level.H.indicator, some 7, false⟩ : Model.Cfg).Valid :=
 /-- the published boundaries, on the Spec side of `C03_iff`: 7089 / 7090 digits at 40-L, 17 / 18 bytes at 1-L -/
 example : Spec.fits 40 .L [(.numeric, 7089)] = true ∧ Spec.fits 40 .L [(.numeric, 7090)] = false ∧
     Spec.fits 1 .L [(.byte, 17)] = true ∧ Spec.fits 1 .L [(.byte, 18)] = false := by decide
+
+/-- the Python functions this property's model mirrors have, in /repo's current working tree, exactly the normalised
+    ASTs the model was written and validated against (fingerprints regenerated by T1 on every run) -/
+theorem C03_source_fingerprints : QR.Gen.fp_C03 = QR.Pinned.fp_C03 := by decide
 
 end QR.Props
